@@ -244,3 +244,30 @@ def r13d(model: Model, rr: RuleResult):
         rr.ok("colour stops: offset and (palette index, alpha) of the same stop")
     else:
         rr.bad(gfi, gfi.node, "colour stop reconstruction does not pair offset/index/alpha of one stop", construct="_gradient_paint: ColorStop")
+
+
+@RULES.rule("C13", "R13e", "gradient ids are allocated per generated SVG document (one reuse cache per colour glyph)", floor=2)
+def r13e(model: Model, rr: RuleResult):
+    fi = model.func("colr_to_svg", "_colr_v1_glyph_to_svg")
+    cfg = cfg_of(fi)
+    root = find_calls(fi, "_svg_root")
+    call = find_calls(fi, "_colr_v1_paint_to_svg")
+    if len(root) != 1 or len(call) != 1:
+        raise AnalysisError("_colr_v1_glyph_to_svg: _svg_root / _colr_v1_paint_to_svg calls not found")
+    rc = call[0].args[6] if len(call[0].args) > 6 else kwarg(call[0], "reuse_cache")
+    ok = False
+    if isinstance(rc, ast.Name):
+        defs = cfg.reaching(cfg.node_for(call[0]), rc.id)
+        ok = bool(defs) and all(d.kind == "assign" and isinstance(d.value, ast.Call) and callee_tail(d.value) in ("_new_reuse_cache", "ReuseCache") for d in defs)
+    elif isinstance(rc, ast.Call) and callee_tail(rc) in ("_new_reuse_cache", "ReuseCache"):
+        ok = True
+    if ok:
+        rr.ok("each generated document gets a fresh reuse cache: a gradient id found in the cache is defined in the same document")
+    else:
+        rr.bad(fi, call[0], "the gradient reuse cache outlives one document: a later glyph's fill can be given the id of a gradient that was defined in an "
+               "earlier glyph's SVG (dangling or wrong gradient)", construct=f"_colr_v1_glyph_to_svg: reuse_cache = {short(rc)} not created per document")
+    defs_el = [st for st in walk_body(fi) if isinstance(st, ast.Assign) and norm(st.targets[0]) == "svg_defs"]
+    if defs_el and norm(defs_el[0].value) == "svg_root[0]":
+        rr.ok("gradients are defined in the document's own <defs>")
+    else:
+        rr.bad(fi, fi.node, "svg_defs is not the <defs> of the document being built", construct="_colr_v1_glyph_to_svg: svg_defs")
